@@ -44,6 +44,8 @@ LazyK == {"and", "or"}
 Chains == {Bin(k1, Bin(k2, Bin(k1, Hole, Hole), Hole), Hole) : k1 \in LazyK, k2 \in LazyK}
           \cup {Bin(k1, Hole, Bin(k2, Hole, Bin(k1, Hole, Hole))) : k1 \in LazyK, k2 \in LazyK}
           \cup {If(Hole, Val(I(1)), If(Hole, Val(I(2)), If(Hole, Val(I(3)), Val(I(4)))))}
+          \* a lazy operator whose left operand is a special value: only None decides `==` / `!=` alone, only a Bool `and` / `or`
+          \cup {Bin(k, Val(v), Hole) : k \in {"eq", "neq", "and", "or"}, v \in {VFloat(FNaN), VFloat(FZero(-1)), VNone, VStr(<<>>), I(0)}}
 Shapes == LET base == UNION {T(n) : n \in 1..L} IN
           IF Wrap THEN base \cup Chains \cup UNION {Wrapped(t) : t \in UNION {T(n) : n \in 1..(IF L > 2 THEN 2 ELSE L)}}
                        \cup {Bin("and", w, Hole) : w \in Wrapped(Hole)} \cup {Bin("eq", Hole, w) : w \in Wrapped(Hole)}
